@@ -165,7 +165,25 @@ func dynamicLeg(a cli.Args, repo string, t *transOut, rep *emit.Report, distinct
 	}
 	for _, ad := range dynAdapters {
 		if _, ok := irOf[ad.Sig]; !ok {
-			if l := byFunc[ad.Dir+":"+ad.Sig[strings.LastIndex(ad.Sig, ":")+1:]]; len(l) == 1 {
+			fn := ad.Sig[strings.LastIndex(ad.Sig, ":")+1:]
+			if l := byFunc[ad.Dir+":"+fn]; len(l) == 1 {
+				irOf[ad.Sig] = l[0]
+				continue
+			}
+			// the constructor hands out a function of the package as a value (method value,
+			// named function): the unique entry point that names the constructor in `via`
+			var l []*entryPoint
+			for _, ep := range t.EntryPoints {
+				if strings.SplitN(ep.File, "/", 2)[0] != ad.Dir {
+					continue
+				}
+				for _, v := range ep.Via {
+					if v == fn {
+						l = append(l, ep)
+					}
+				}
+			}
+			if len(l) == 1 {
 				irOf[ad.Sig] = l[0]
 			}
 		}
